@@ -1,4 +1,5 @@
 import Goyang.Lemmas.Uses
+import Goyang.Lemmas.Fuel
 /-
 C06: the `uses` step is the first field step of `toEntry` also for the statements that
 `Lemmas/Uses.lean` leaves out — `augment` (no cache), `grouping` (wrapped in the grouping cache) and
@@ -15,6 +16,7 @@ C06: the `uses` step is the first field step of `toEntry` also for the statement
   (`Lemmas.Fuel.toEntry_reentry`, C01).
 Core Lean only.
 -/
+set_option linter.unusedSimpArgs false
 namespace Goyang.Lemmas.Uses
 open Goyang.Model Goyang.Spec.Uses
 
@@ -75,54 +77,85 @@ theorem toEntry_grouping_stores (env : Env) (fuel : Nat) (root : Mod) (scope : L
 
 /-! ### module and submodule statements: the module cache -/
 
-/-- The include step of a (sub)module only appends children. -/
-theorem include_step_grows (env : Env) (fuel : Nat) (root : Mod) (n : Stmt) (visiting : List NodeId)
-    (acc : Entry × TState) (a : Stmt) :
-    DirGrows acc.1
-      (match acc with
-       | (e, st) =>
-        match env.includeTarget root a with
-        | none => (e.addErr (Err.at_ a "other"), st)
-        | some im =>
-          let srcToIncluded := im.name ++ ":" ++ n.arg
-          let includedToSrc := n.arg ++ ":" ++ im.name
-          if st.merged.contains srcToIncluded then (e, st)
-          else if !st.merged.contains includedToSrc && im.name != n.arg then
-            let includedToParent := im.name ++ ":" ++ (im.belongsTo?.getD "")
-            if st.merged.contains includedToParent then (e, st)
-            else
-              let st := { st with merged := st.merged ++ [srcToIncluded, includedToParent] }
-              let (ie, st) := toEntry env fuel im [] im.stmt visiting st
-              (e.merge none ie, st)
-          else if env.opts.ignoreCircular then (e, st)
-          else (e.addErr (Err.bare "cycle"), st)).1 := by
-  obtain ⟨e, st⟩ := acc
-  simp only
-  repeat' first
-    | exact DirGrows.refl _
-    | exact DirGrows.of_eq (dir_addErr _ _)
-    | (show DirGrows _ (Entry.merge _ _ _); exact merge_grows _ _ _)
-    | split
+open Goyang.Lemmas.Fuel (stepB toEntryBody skeleton toEntry_succ)
 
+/-- Every field step of the directory case only appends children (the `uses` step included). -/
+theorem stepB_grows (env : Env) (rec : Goyang.Lemmas.Fuel.Rec) (root : Mod) (n : Stmt) (sub : List Stmt)
+    (vis : List NodeId) (isMod : Bool) (acc : Entry × TState) (f : String) :
+    DirGrows acc.1 (stepB env rec root n sub vis isMod acc f).1 := by
+  obtain ⟨e, st⟩ := acc
+  unfold stepB
+  dsimp only
+  split
+  all_goals
+    repeat' first
+      | exact DirGrows.refl _
+      | exact foldl_grows _ (fun acc a => add_grows _ _ _) _ _
+      | exact foldl_grows _ (fun acc a => importErrors_grows _ _) _ _
+      | refine foldl_grows _ (fun acc a => ?_) _ _
+      | exact DirGrows.of_eq (dir_addErr _ _)
+      | exact DirGrows.of_eq (dir_withD _ _)
+      | exact merge_grows _ _ _
+      | exact importErrors_grows _ _
+      | refine DirGrows.trans ?_ (DirGrows.of_eq (dir_addErr _ _))
+      | refine DirGrows.trans ?_ (DirGrows.of_eq (dir_addErrs _ _))
+      | refine DirGrows.trans ?_ (DirGrows.of_eq (dir_withD _ _))
+      | split
+      | (dsimp only; done)
+      | (dsimp only; exact merge_grows _ _ _)
+      | (dsimp only; exact importErrors_grows _ _)
+      | (dsimp only; refine DirGrows.trans ?_ (DirGrows.of_eq (dir_addErr _ _)))
+
+/-- The first field step, `uses`, is the fold of `usesStep`. -/
+theorem stepB_uses (env : Env) (fuel : Nat) (root : Mod) (n : Stmt) (sub : List Stmt) (vis : List NodeId) (isMod : Bool)
+    (acc : Entry × TState) :
+    stepB env (toEntry env fuel) root n sub vis isMod acc "uses" = (n.all "uses").foldl (usesStep env fuel root sub vis) acc := by
+  obtain ⟨e, st⟩ := acc
+  rfl
+
+/-- **A hit returns the stored entry**: a (sub)module statement whose module is in the cache is not
+converted again; the state stays as it is. -/
+theorem toEntry_module_cached (env : Env) (fuel : Nat) (root : Mod) (scope : List Stmt) (n : Stmt)
+    (visiting : List NodeId) (st : TState) (k : Nat) (e : Entry) (hkw : n.kw = "module" ∨ n.kw = "submodule")
+    (h : st.cache.find? (·.1 == root.seq) = some (k, e)) :
+    toEntry env (fuel + 1) root scope n visiting st = (e, st) := by
+  rw [toEntry]
+  rcases hkw with hkw | hkw <;>
+    simp only [hkw, String.reduceBEq, Bool.or_self, Bool.true_or, Bool.or_true, Bool.false_eq_true, if_false, if_true, h]
+
+/-- **A miss runs the same fold.**  A (sub)module statement whose module is not in the cache and
+not under conversion is converted like a container: first its `uses` substatements (`usesStep`),
+then fields that only append children (the children of included submodules among them); the
+statement is in `visiting` while this happens. -/
 theorem toEntry_module_uses_first (env : Env) (fuel : Nat) (root : Mod) (scope : List Stmt) (n : Stmt)
-    (visiting : List NodeId) (st : TState) (hkw : n.kw = "module")
+    (visiting : List NodeId) (st : TState) (hkw : n.kw = "module" ∨ n.kw = "submodule")
     (hmiss : st.cache.find? (·.1 == root.seq) = none) (hnv : visiting.contains (nodeId root n) = false) :
     DirGrows ((n.all "uses").foldl (usesStep env fuel root (n :: scope) (nodeId root n :: visiting)) (dir0 root n, st)).1
       (toEntry env (fuel + 1) root scope n visiting st).1 := by
-  rw [toEntry]
-  simp only [hkw, String.reduceBEq, Bool.or_self, Bool.false_eq_true, ↓reduceIte, Bool.false_and, fieldOrder,
-    List.foldl_cons, List.foldl_nil, hmiss, hnv, Bool.true_or, Bool.or_false, Bool.or_true, Bool.and_false, Bool.not_true]
-  unfold usesStep dir0
-  simp only [hkw]
-  repeat' first
-    | exact DirGrows.refl _
-    | refine DirGrows.trans ?_ (foldl_grows _ (fun acc a => add_grows _ _ _) _ _)
-    | refine DirGrows.trans ?_ (foldl_grows _ (fun acc a => importErrors_grows _ _) _ _)
-    | refine DirGrows.trans ?_ (foldl_grows _ (fun acc a => include_step_grows env fuel root n _ acc a) _ _)
-    | refine DirGrows.trans ?_ (DirGrows.of_eq (dir_addErrs _ _))
-    | refine DirGrows.trans ?_ (DirGrows.of_eq (dir_withD _ _))
-    | split
-  trace_state
-  sorry
+  rw [toEntry_succ]
+  unfold toEntryBody skeleton
+  rcases hkw with hkw | hkw
+  all_goals
+    simp only [hkw, String.reduceBEq, Bool.or_self, Bool.true_or, Bool.or_true, Bool.false_eq_true, if_false, if_true,
+      hmiss, hnv, Bool.and_false, Bool.or_false, fieldOrder, Goyang.Lemmas.Fuel.visiting', Goyang.Lemmas.Fuel.isTracked]
+    rw [List.foldl_cons, stepB_uses]
+    refine DirGrows.trans ?_ (foldl_grows _ (fun acc f => stepB_grows env _ root n _ _ _ acc f) _ _)
+    unfold dir0
+    simp only [hkw]
+    exact DirGrows.of_eq rfl
+
+/-- … and stores the entry it produced at the end of the module cache. -/
+theorem toEntry_module_stores (env : Env) (fuel : Nat) (root : Mod) (scope : List Stmt) (n : Stmt)
+    (visiting : List NodeId) (st : TState) (hkw : n.kw = "module" ∨ n.kw = "submodule")
+    (hmiss : st.cache.find? (·.1 == root.seq) = none) (hnv : visiting.contains (nodeId root n) = false) :
+    ∃ st' : TState, (toEntry env (fuel + 1) root scope n visiting st).2 =
+      { st' with cache := st'.cache ++ [(root.seq, (toEntry env (fuel + 1) root scope n visiting st).1)] } := by
+  rw [toEntry_succ]
+  unfold toEntryBody skeleton
+  rcases hkw with hkw | hkw
+  all_goals
+    simp only [hkw, String.reduceBEq, Bool.or_self, Bool.true_or, Bool.or_true, Bool.false_eq_true, if_false, if_true,
+      hmiss, hnv, Bool.and_false, Bool.or_false]
+    exact ⟨_, rfl⟩
 
 end Goyang.Lemmas.Uses
